@@ -27,10 +27,34 @@ def gen_matrix(rng):
     return [[rng.randint(-3, 3) for _ in range(3)] + [rng.randint(-9, 9)] for _ in range(3)]
 
 
+def gen_big_polylist(rng):
+    """many polygons (more corners than a narrow integer type can count) with vcounts handed over in
+    every integer dtype / as a list: the corner ranges must not depend on the caller's dtype"""
+    npoly = rng.choice([35, 50, 70])
+    vcounts = [rng.choice([3, 4, 4, 5]) for _ in range(npoly)]
+    two = rng.random() < 0.5
+    srcs = [[5, 3]] + ([[4, 3]] if two else [])
+    inputs = [[0, 'VERTEX', ['src', 0]]] + ([[1, 'NORMAL', ['src', 1]]] if two else [])
+    flat = []
+    for _ in range(sum(vcounts)):
+        flat.append(rng.randint(0, 4))
+        if two:
+            flat.append(rng.randint(0, 3))
+    case = {'kind': 'polylist', 'via': 'create', 'srcs': srcs, 'inputs': inputs, 'material': rng.choice([None, 1]),
+            'dtype': rng.choice(['int32', 'int64']), 'mode': 'big',
+            'vcform': rng.choice(['uint8', 'int8', 'int16', 'uint16', 'array', 'list', 'int64']),
+            'flat': flat, 'vcounts': vcounts}
+    return finish_case(rng, case)
+
+
 def gen_case(rng, rows=None):
     if rows is None:
         rows = rng.choice([0, 1, 2, 3, 4, 5, 6])
     case = P9.gen_case(rng, rows=rows, modes=(90, 4, 2, 2, 2), clean=rng.random() < 0.9, max_inputs=6)
+    return finish_case(rng, case)
+
+
+def finish_case(rng, case):
     case['matrix'] = gen_matrix(rng)
     syms = rng.sample([1, 2, 3], rng.choice([0, 1, 2, 3]))
     if case.get('material') is not None and case['material'] not in syms and rng.random() < 0.6:
@@ -159,6 +183,8 @@ def run(ctx):
     nrand = 1500 if quick else 30000
     for j in range(nrand):
         cases.append(gen_case(ctx.rng, rows=j % 7))
+    for _ in range(14 if quick else 140):
+        cases.append(gen_big_polylist(ctx.rng))
     ctx.log('building %d primitives, iterating and indexing them unbound and bound' % len(cases))
     results = run_impl_cases(cases)
     terms = [c_case(c, r) for c, r in zip(cases, results)]
@@ -210,6 +236,7 @@ def run(ctx):
     def search(mm):
         extra = [m['input'] for m in mm if m.get('input')]
         extra += [gen_case(ctx.rng) for _ in range(4000)]
+        extra += [gen_big_polylist(ctx.rng) for _ in range(60)]
         res = run_impl_cases(extra)
         return first_failures(extra, res)
 
